@@ -156,6 +156,26 @@ def run_generic(ctx):
                              "%s (generic float weights) with %d workers under completion order %s differs in its bits from the sequential result"
                              % (entry, w, used[:3]), dict(entry=entry, workers=w, orders=used[:6], npatch=npatch, generic_weights=True),
                              case=("generic", rep, entry, k))
+        # tree building with non-default keywords (leafsize, closed side): the trees, and every weighted count
+        # made with them, must not depend on how many workers built them
+        for leafsize, closed in ((4, "right"), (1, "left"), (64, "right")):
+            cfg_l = yaw.Configuration.create(rmin=[1.0, 5.0], rmax=[20.0, 60.0], unit="arcmin", edges=edges, closed=closed, max_workers=1)
+            for c in (ref, rand):
+                c.build_trees(edges, closed=closed, leafsize=leafsize, force=True, max_workers=1)
+            want_l = cf_bits(yaw.autocorrelate(cfg_l, ref, rand, max_workers=1))
+            for w in (2, npatch + 1):
+                with patched(simpool.Schedule("random", seed=rng.randrange(10 ** 6))) as mp:
+                    for c in (ref, rand):
+                        c.build_trees(edges, closed=closed, leafsize=leafsize, force=True, max_workers=w)
+                got_l = cf_bits(yaw.autocorrelate(cfg_l, ref, rand, max_workers=1))
+                ctx.count(key=("generic", rep, "trees-kw", leafsize, closed, w), nontrivial=True, kind="generic-weights/trees-keywords/w%d" % w)
+                if got_l != want_l:
+                    ctx.fail("c05-trees-depends-on-worker-count",
+                             "trees built with leafsize=%d, closed=%s by %d workers give other (weighted) pair counts than the same trees built by one worker"
+                             % (leafsize, closed, w), dict(entry="trees", leafsize=leafsize, closed=closed, workers=w, npatch=npatch, generic_weights=True),
+                             case=("generic", rep, "trees-kw", leafsize, closed, w))
+        for c in (ref, rand):
+            c.build_trees(edges, closed="right", force=True, max_workers=1)
         for w in (2, 5):
             h = HistData.from_catalog(ref, cfg, max_workers=w)
             ctx.count(key=("generic", rep, "real-hist", w), nontrivial=True, kind="generic-weights/real-pool/w%d" % w)
